@@ -458,6 +458,7 @@ class GLRParser(Parser):
                     head.position,
                     head.position + len(head.token_ahead),
                     token=head.token_ahead,
+                    layout_content=head.layout_content_ahead,
                 )
                 if self.dynamic_filter and not self._call_dynamic_filter(
                     parent, head.state, to_state, SHIFT
@@ -488,6 +489,7 @@ class GLRParser(Parser):
                     head.position,
                     end_position,
                     token=head.token_ahead,
+                    layout_content=head.layout_content_ahead,
                 )
 
                 if self.dynamic_filter and not self._call_dynamic_filter(
@@ -763,6 +765,7 @@ class Parent:
         "_ambiguities",
         "production",
         "token",
+        "_layout_content",
     ]
 
     def __init__(
@@ -774,9 +777,13 @@ class Parent:
         possibilities=None,
         production=None,
         token=None,
+        layout_content=None,
     ):
         self.root = root
         self.head = head
+        # Layout before a shifted token belongs to this link: a head may be
+        # shared by tokens that are preceded by different layout.
+        self._layout_content = layout_content
         self.start_position = start_position
         self.end_position = end_position if end_position is not None else start_position
 
@@ -880,6 +887,8 @@ class Parent:
 
     @property
     def layout_content(self):
+        if self._layout_content is not None:
+            return self._layout_content
         return self.head.layout_content
 
     @property
